@@ -496,6 +496,14 @@ func (e *escaper) escapeTree(c context, node parse.Node, name string, line int) 
 	// identifier.
 	dname := mangle(c, name)
 	e.called[dname] = true
+	if t := e.ns.set[name]; t != nil && t.escapeErr != nil && t.escapeErr != errEscapeOK {
+		// The template failed contextual analysis when it was executed on its
+		// own and has been rendered unusable: its parse tree is gone.
+		return context{
+			state: stateError,
+			err:   errorf(ErrNoSuchTemplate, node, line, "%q is unusable: %v", name, t.escapeErr),
+		}, dname
+	}
 	if out, ok := e.output[dname]; ok {
 		// Already escaped.
 		return out, dname
